@@ -329,7 +329,27 @@ def run(ctx):
         for rr in r["random"]:
             ctx.oracle["cases"] += 1
             if "ok" in rr:
-                pass  # values are checked through the instance only when addressable; the verdict classes are what matters
+                # recover the drawn values through the advertised paths and evaluate the property on them
+                drawn = {}
+                for pid, pth in zip(r["ids"], r["upaths"]):
+                    got = C01.navigate(rr["ok"], pth)
+                    if got is not None and got["t"] == "v":
+                        drawn[pid] = unhex(got["v"])
+                bad = [pid for pid, v in drawn.items() if not (lims[pid][0] <= v <= lims[pid][1])]
+                msg = None
+                if bad:
+                    msg = "random_instance returned a value outside the limits of parameter %d" % bad[0]
+                elif len(drawn) == npool:
+                    vec = [drawn[i] for i in range(npool)]
+                    try:
+                        if not all([eval_all_operands(a["a"], vec) and eval_assert(a["a"], vec) for a in c["asserts"]]):
+                            msg = "random_instance returned an instance that violates an assertion"
+                    except ZeroDivisionError:
+                        pass
+                ctx.hist("random-instance", "checked-%d-of-%d-values" % (len(drawn), npool) if len(drawn) < npool else "checked-all-values")
+                if msg:
+                    ctx.oracle["failures"] += 1
+                    ctx.failure("oracle", msg, dict(c, vectors=[], units=[]), impl=rr)
             elif rr["v"] not in ("assert", "limit"):
                 ctx.oracle["failures"] += 1
                 ctx.failure("oracle", "random_instance raised %s" % rr.get("exc"), dict(c, vectors=[], units=[]), impl=rr)
